@@ -16,7 +16,7 @@ PROP = "C14"
 
 MAIN = list("abefiux_01289 \t\n\r(){}[]<>|&^!+-*/%:;.,=\"'\\#@") + ["é"]
 LITERAL = list("01xb_iu8 ")
-QUOTE = list("'\"\\nxu{}41 \n\t\x07\x7f")
+QUOTE = list("'\"\\nxu{}41 \n\r\t\x07\x7f")
 
 PUNCT = {"(": "ParenLeft", ")": "ParenRight", "{": "BraceLeft", "}": "BraceRight", "[": "BracketLeft", "]": "BracketRight",
          "<": "AngleLeft", ">": "AngleRight", "|": "Pipe", "&": "Ampersand", "^": "Caret", "!": "Exclamation",
